@@ -14,7 +14,10 @@ raises ldap3's own result exceptions.
 
 There is no clock and no concurrency in this property; what the simulation
 contributes is the history quantifier: sequences of requests against state.
-Every response is compared with the reference model in oracles/alloccheck.py.
+Every response is compared with the reference model in oracles/alloccheck.py;
+the model's "other reservations" are what is stored, read back through the API
+after every op, and after every accepted request the C19 condition is evaluated
+once more on the stored reservation.
 """
 
 import copy
@@ -370,13 +373,15 @@ class World:
             'missing_partition': 0, 'mixed_spelling': 0,
             'others_already_over_capacity': 0, 'zero_request': 0,
             'update_inherits_traits': 0, 'update_without_partition': 0,
+            'stale_traits_stored': 0,
             'deleted': 0, 'allocation_deleted_with_reservations': 0,
         }
         # counters that are zero by construction on a generated history
         # (ops are only skipped in sub-lists tried by the minimiser; an
         # update naming no partition is only *rejected as malformed* by a
         # tree whose schema requires one)
-        self.extra = {'skipped_ops': 0, 'rejected_malformed': 0}
+        self.extra = {'skipped_ops': 0, 'rejected_malformed': 0,
+                      'accepted_but_not_listed': 0}
         self.faults = {
             'partition_missing_at_request': 0, 'partition_without_limits': 0,
             'reservation_without_traits': 0, 'partition_resized': 0,
@@ -398,7 +403,7 @@ class World:
     def apply(self, op):
         getattr(self, 'op_' + op['op'])(op)
         if self.violation is None:
-            self._check_state()
+            self._sync_state()
         self.fps.append(logmod.fingerprint(self.model.abstract()))
 
     def _skip(self, why):
@@ -596,36 +601,25 @@ class World:
         if outcome == 'accepted':
             probes['accepted'] += 1
             if bad is not None:
-                label, dim, trait, total, cap = bad
-                inherited = trait is not None and \
-                    trait not in rsrc.get('traits', [])
-                return self.fail(
-                    '%s:accepted-over-capacity:%s-%s%s' % (
-                        self.prop, label, dim,
-                        ':inherited-trait' if inherited else ''),
-                    '%s %s %r accepted although %s%s %s would be %d > %d '
-                    '(others in cell %s partition %s: %r)' % (
-                        kind, op['id'], rsrc, label,
-                        ' %s' % trait if trait else '', dim, total, cap,
-                        cell, eff['partition'],
-                        [[o[d] for d in DIMS] + [o['traits']]
-                         for o in others]))
-            model.res[key] = eff
-            # what is stored is what was requested (read back via the API)
-            try:
-                back = self.api.reservation.get(op['id'])
-            except simkit.HarnessError:
-                raise
-            except Exception as err:  # pylint: disable=broad-except
-                return self._service_failure(err, 'get after ' + kind, op)
-            diff = alloccheck.compare_stored(eff, back)
-            if diff is not None:
-                return self.fail(
-                    '%s:stored-differs:%s' % (self.prop, diff),
-                    '%s %s %r accepted; expected stored %r, API returns %r'
-                    % (kind, op['id'], rsrc,
-                       {k: eff[k] for k in DIMS + ('partition', 'traits')},
-                       back))
+                return self._over_capacity(kind, op, bad, eff, others, '')
+            # The C19 condition on what is now STORED (read back through the
+            # API, parsed by the harness): the reservation just written,
+            # counted with all others of its cell and partition.
+            self._sync_state()
+            rec = model.res.get(key)
+            if rec is None:
+                self.extra['accepted_but_not_listed'] += 1
+                return None
+            if rec['traits'] != eff['traits']:
+                probes['stale_traits_stored'] += 1
+            sbad = model.misfit(key, cell, rec)
+            if sbad is not None:
+                stale = (sbad[0] == 'trait' and sbad[2] in rec['traits'] and
+                         sbad[2] not in eff['traits'])
+                return self._over_capacity(
+                    kind, op, sbad, rec,
+                    model.others(key, cell, rec['partition']),
+                    ':stale-traits' if stale else '')
             return None
 
         if outcome == 'invalid' and marginal:
@@ -643,27 +637,33 @@ class World:
                      for label, trait, cap, used in cons]))
         return None
 
-    def _check_state(self):
-        """Everything stored, as the API lists it, equals the model."""
+    def _over_capacity(self, kind, op, bad, rec, others, suffix):
+        label, dim, trait, total, cap = bad
+        self.fail(
+            '%s:accepted-over-capacity:%s-%s%s' % (self.prop, label, dim,
+                                                    suffix),
+            '%s %s %r accepted although %s%s %s %s %d > %d (stored traits '
+            '%r; others in cell %s partition %s: %r)' % (
+                kind, op['id'], op['rsrc'], label,
+                ' %s' % trait if trait else '', dim,
+                'is' if suffix else 'would be', total, cap, rec['traits'],
+                op['id'].rsplit('/', 1)[1], rec['partition'],
+                [[o[d] for d in DIMS] + [o['traits']] for o in others]))
+
+    def _sync_state(self):
+        """The model's reservations := everything stored, as the API lists
+        it (the others of a later request are what the directory holds)."""
         stored = {}
         for alloc in self.api.list():
             for res in alloc.get('reservations', []):
-                stored[res['_id']] = res
-        for key, rec in sorted(self.model.res.items()):
-            rid = '%s/%s' % key
-            listed = stored.pop(rid, None)
-            diff = alloccheck.compare_stored(rec, listed)
-            if diff is not None:
-                return self.fail(
-                    '%s:stored-differs:%s' % (self.prop, diff),
-                    'reservation %s: model %r, listed %r' % (
-                        rid, {k: rec[k] for k in DIMS + ('partition',
-                                                         'traits')},
-                        listed))
-        if stored:
-            return self.fail('%s:stored-differs:extra' % self.prop,
-                             'listed but never accepted: %r' % sorted(stored))
-        return None
+                alloc_id, cell = res['_id'].rsplit('/', 1)
+                try:
+                    stored[(alloc_id, cell)] = alloccheck.stored_record(res)
+                except alloccheck.Unparsable as err:
+                    raise simkit.HarnessError(
+                        'stored reservation %r has a quantity the harness '
+                        'cannot parse: %s' % (res, err))
+        self.model.res = stored
 
 
 # ---------------------------------------------------------------------------
@@ -1011,9 +1011,11 @@ class AllocSim(enginemod.Engine):
                 'exactly what is free, one unit more, one unit less, zero) '
                 'in mixed unit spellings, interleaved with partition '
                 'resize/removal and allocation add/delete; every response of '
-                'the real API is compared with the reference model and the '
-                'listing of everything stored is compared with the model '
-                'after every op.  A run is distinct by the fingerprint of '
+                'the real API is compared with the reference model (the '
+                'merged request against the other reservations AS STORED, '
+                'read back through API().list() after every op); after every '
+                'accepted request the C19 condition is evaluated again on '
+                'the stored reservation.  A run is distinct by the fingerprint of '
                 'its recorded op list; non-trivial: a create/update request '
                 'issued while the same cell and partition already holds at '
                 'least one other reservation (the sum matters) '
@@ -1029,8 +1031,15 @@ class AllocSim(enginemod.Engine):
             'each limited trait the resulting reservation carries; memory '
             'and disk are binary multiples (1G = 1024M = 1048576K)',
             'an update changes the fields it names and keeps the others; the '
-            'reservation judged is the one that results (so traits kept from '
-            'the replaced reservation count)',
+            'expectation judges that merged request (an empty trait list '
+            'means no traits); the other reservations count as they are '
+            'stored, with whatever traits they carry',
+            'after an accepted request the stored reservation itself must '
+            'satisfy the condition; if it only fails for a trait the merged '
+            'request did not have (old traits that an update could not '
+            'clear) the signature carries :stale-traits; a stored state that '
+            'merely differs from the request is a reach probe '
+            '(stale_traits_stored), not a violation',
             'requests are atomic (no concurrent check-then-write of two API '
             'processes); no clock is involved, simulated seconds are 0',
             'create is only sent for an id that has no reservation and whose '
